@@ -808,6 +808,100 @@ theorem gen_set_removeAll (h : Nat → Nat) {pt : PTable} {t : Table} (hr : Rel 
   exact gen_set_removeAll_loop h o _ pt t _ hr hi
 
 
+/-! ### the members called with the object itself as `other` (translated with `other.x` = `x`) -/
+
+/-- The translated `swap(other)` with `other` = the object itself (both halves act on one object and one heap) is the model's
+    `swapSelf`, for EVERY table. -/
+theorem gen_map_swapSelf (a : PTable) : HashLink.HashMap.swapSelf a = some a.swapSelf := by
+  unfold HashLink.HashMap.swapSelf PTable.swapSelf PTable.adopt
+  cases ha : a.endPrev with
+  | none => simp [ha]
+  | some l => simp [ha, upd_same]
+
+theorem gen_set_appendSelf_loop (h : Nat → Nat) (fuel : Nat) : ∀ (pt : PTable) (t : Table) (i : Nxt), Rel pt t → t.Inv h →
+    HashLink.HashSet.appendSelf_loop1 h fuel pt i (.stl pt.self) = PTable.appendSelfLoop Kind.set h fuel i pt := by
+  induction fuel with
+  | zero =>
+    intro pt t i hr hi
+    cases i with
+    | stl s =>
+      unfold HashLink.HashSet.appendSelf_loop1 PTable.appendSelfLoop
+      by_cases hs : s = pt.self <;> simp [hs]
+    | item a => simp [HashLink.HashSet.appendSelf_loop1, PTable.appendSelfLoop]
+  | succ f ih =>
+    intro pt t i hr hi
+    cases i with
+    | stl s =>
+      unfold HashLink.HashSet.appendSelf_loop1 PTable.appendSelfLoop
+      by_cases hs : s = pt.self <;> simp [hs]
+    | item a =>
+      unfold HashLink.HashSet.appendSelf_loop1 PTable.appendSelfLoop
+      simp only [reduceCtorEq, if_false]
+      rw [gen_set_insert h pt _ _ (pt.items a).value (by simp)]
+      obtain ⟨r, e1, _, hr', hself⟩ := hr.insert hi Kind.set t.order.length (pt.items a).key (pt.items a).value (Nat.le_refl _)
+      rw [nxtAt_length] at e1
+      rw [e1]
+      simp only [Option.map_some]
+      rw [← hself]
+      exact ih r.1 _ _ hr' (hi.insert Kind.set t.order.length (pt.items a).key (pt.items a).value (Nat.le_refl _)).1
+
+theorem gen_set_swapSelf (a : PTable) : HashLink.HashSet.swapSelf a = some a.swapSelf := by
+  unfold HashLink.HashSet.swapSelf PTable.swapSelf PTable.adopt
+  cases ha : a.endPrev with
+  | none => simp [ha]
+  | some l => simp [ha, upd_same]
+
+theorem gen_pool_swapSelf (a : PTable) : HashLink.PoolMap.swapSelf a = some a.swapSelf := by
+  unfold HashLink.PoolMap.swapSelf PTable.swapSelf PTable.adopt
+  cases ha : a.endPrev with
+  | none => simp [ha]
+  | some l => simp [ha, upd_same]
+
+/-- `a = a`: the guard `if(this == &other) return *this;` – nothing is touched -/
+theorem gen_map_assignSelf (h : Nat → Nat) (t : PTable) : HashLink.HashMap.assignSelf h t = some t := rfl
+theorem gen_set_assignSelf (h : Nat → Nat) (t : PTable) : HashLink.HashSet.assignSelf h t = some t := rfl
+
+/-- The translated `HashSet::append(const HashSet& other)` with `other` = the object itself – the loop reads `i->key` and
+    `i->next` from the table the previous `insert` left – is the model's `appendSelf` on every represented table. -/
+theorem gen_set_appendSelf {h : Nat → Nat} {pt : PTable} {t : Table} (hr : Rel pt t) (hi : t.Inv h) :
+    HashLink.HashSet.appendSelf h pt = PTable.appendSelf Kind.set h pt := by
+  unfold HashLink.HashSet.appendSelf PTable.appendSelf
+  exact gen_set_appendSelf_loop h _ pt t _ hr hi
+
+theorem gen_set_removeSelf_loop (h : Nat → Nat) (fuel : Nat) : ∀ (pt : PTable) (t : Table) (i : Nxt), Rel pt t → t.Inv h →
+    HashLink.HashSet.removeSelf_loop1 h fuel pt i (.stl pt.self) = PTable.removeSelfLoop h fuel i pt := by
+  induction fuel with
+  | zero =>
+    intro pt t i hr hi
+    cases i with
+    | stl s =>
+      unfold HashLink.HashSet.removeSelf_loop1 PTable.removeSelfLoop
+      by_cases hs : s = pt.self <;> simp [hs]
+    | item a => simp [HashLink.HashSet.removeSelf_loop1, PTable.removeSelfLoop]
+  | succ f ih =>
+    intro pt t i hr hi
+    cases i with
+    | stl s =>
+      unfold HashLink.HashSet.removeSelf_loop1 PTable.removeSelfLoop
+      by_cases hs : s = pt.self <;> simp [hs]
+    | item a =>
+      unfold HashLink.HashSet.removeSelf_loop1 PTable.removeSelfLoop
+      simp only [reduceCtorEq, if_false]
+      rw [gen_set_removeKey hr hi]
+      obtain ⟨pt', e1, hr', hself⟩ := hr.removeKey hi (pt.items a).key
+      rw [e1]
+      simp only []
+      rw [← hself]
+      exact ih pt' _ _ hr' (hi.removeKey (pt.items a).key).1
+
+/-- The translated `HashSet::remove(const HashSet& other)` with `other` = the object itself – `i->next` is read from the item
+    that `remove(i->key)` has just released – is the model's `removeSelf` on every represented table. -/
+theorem gen_set_removeSelf {h : Nat → Nat} {pt : PTable} {t : Table} (hr : Rel pt t) (hi : t.Inv h) :
+    HashLink.HashSet.removeSelf h pt = PTable.removeSelf h pt := by
+  unfold HashLink.HashSet.removeSelf PTable.removeSelf
+  exact gen_set_removeSelf_loop h _ pt t _ hr hi
+
+
 /-- the hypotheses of the `…_rel` theorems are met by a non-empty represented table, and the translated `remove(iterator)`
     does not fault on it -/
 example : ∃ (pt : PTable) (t : Table), Rel pt t ∧ t.Inv (fun _ => 7) ∧ 0 ∈ t.order ∧
